@@ -255,7 +255,7 @@ func c06RunInBubble(t *testing.T, c c06Case, res *vfResult) {
 			}
 		}
 		must, may := map[peer.ID]string{}, map[peer.ID]string{}
-		exact := -1 // exact number of recipients among the "choice" set, when the statement fixes it
+		exact, exactLo := -1, -1 // bounds on the number of recipients among the "choice" set, when the router's documentation fixes it
 		choice := map[peer.ID]bool{}
 		cand := func(p peer.ID) bool { return s.topicP[p] && s.queue[p] && p != from && p != author }
 		classes := map[string]bool{}
@@ -285,7 +285,15 @@ func c06RunInBubble(t *testing.T, c c06Case, res *vfResult) {
 			if sq := int(math.Ceil(math.Sqrt(10))); sq > target {
 				target = sq
 			}
-			if len(rs) <= RandomSubD {
+			// topic peers without an outbound stream (their inbound stream still delivers subscriptions) take part
+			// in the router's draw but cannot be sent anything: each of them may use up one slot
+			ghosts := 0
+			for p := range s.topicP {
+				if !s.queue[p] && p != from && p != author {
+					ghosts++
+				}
+			}
+			if len(rs)+ghosts <= RandomSubD {
 				for _, p := range rs {
 					must[p], may[p] = "randomsub peer (all of them fit)", "randomsub peer"
 				}
@@ -293,10 +301,8 @@ func c06RunInBubble(t *testing.T, c c06Case, res *vfResult) {
 				for _, p := range rs {
 					may[p], choice[p] = "randomsub peer", true
 				}
-				exact = target
-				if exact > len(rs) {
-					exact = len(rs)
-				}
+				exact = min(target, len(rs))
+				exactLo = max(0, min(target, len(rs)+ghosts)-ghosts)
 			}
 		default: // gossipsub
 			if c.Flood && local {
@@ -386,8 +392,8 @@ func c06RunInBubble(t *testing.T, c c06Case, res *vfResult) {
 				nChoice++
 			}
 		}
-		if exact >= 0 && nChoice != exact {
-			res.violate("C06/random-selection-size", step, "%d randomly selected peers were sent the message, the rule says %d", nChoice, exact)
+		if exact >= 0 && (nChoice > exact || nChoice < exactLo) {
+			res.violate("C06/random-selection-size", step, "%d randomly selected peers were sent the message, the rule says %d..%d", nChoice, exactLo, exact)
 		}
 		if c.Router == "gossipsub" && !s.hasMesh && len(s.fanout) == 0 && !(c.Flood && local) && !localOnly {
 			want := len(choice)
